@@ -5,6 +5,7 @@ import (
 	"context"
 	"fmt"
 	"io"
+	"time"
 
 	astits "github.com/asticode/go-astits"
 )
@@ -19,6 +20,11 @@ type demuxResult struct {
 
 // demuxAllR drives NextData on a reader until ErrNoMorePackets, continuing after errors, bounded by maxCalls.
 func demuxAllR(r io.Reader, maxCalls int, opts ...func(*astits.Demuxer)) (res demuxResult) {
+	guarded("demultiplexing", func() { res = demuxAllUnguarded(r, maxCalls, opts...) })
+	return
+}
+
+func demuxAllUnguarded(r io.Reader, maxCalls int, opts ...func(*astits.Demuxer)) (res demuxResult) {
 	d := astits.NewDemuxer(context.Background(), r, opts...)
 	for res.calls < maxCalls {
 		res.calls++
@@ -67,4 +73,40 @@ func hexHead(b []byte, n int) string {
 		return fmt.Sprintf("%x", b)
 	}
 	return fmt.Sprintf("%x...(%d bytes)", b[:n], len(b))
+}
+
+// hangLimit bounds a single library call sequence that normally takes micro- to milliseconds. A call that has not
+// returned after this long is reported as non-termination (the goroutine is abandoned).
+const hangLimit = 45 * time.Second
+
+// guarded runs f and panics (rapid and the sweeps report a panic as a failure) when it does not return in time.
+func guarded(what string, f func()) {
+	done := make(chan struct{})
+	var p interface{}
+	go func() {
+		defer func() {
+			p = recover()
+			close(done)
+		}()
+		f()
+	}()
+	select {
+	case <-done:
+		if p != nil {
+			panic(p)
+		}
+	case <-time.After(hangLimit):
+		panic(fmt.Sprintf("%s did not return within %v: the library call does not terminate", what, hangLimit))
+	}
+}
+
+// cappedBuffer is a bytes.Buffer that refuses to grow beyond outputLimit: a Muxer stuck in a packet loop is reported
+// instead of exhausting the machine's memory.
+type cappedBuffer struct{ bytes.Buffer }
+
+func (c *cappedBuffer) Write(p []byte) (int, error) {
+	if c.Len() > outputLimit {
+		panic(fmt.Sprintf("the Muxer has written more than %d bytes: runaway packet loop", outputLimit))
+	}
+	return c.Buffer.Write(p)
 }
